@@ -1,0 +1,16 @@
+//go:build verif
+
+package quic
+
+// Export shim for the C04 (flow control) check of the verification harness in /verif.
+// Compiled only with -tags verif. Adds no behaviour: it constructs the unexported framer, whose
+// exported methods (AddActiveStream, RemoveActiveStream, Append, QueueControlFrame, HasData)
+// are then reachable through the alias.
+
+import "github.com/refraction-networking/uquic/internal/flowcontrol"
+
+type VerifFramer = framer
+
+func VerifNewFramer(connFlowController flowcontrol.ConnectionFlowController) *VerifFramer {
+	return newFramer(connFlowController)
+}
